@@ -129,13 +129,38 @@ def run (ctx : Algo.Ctx) (op : String) (args impl : List String) : Outcome :=
     let nl (x : Str) := x ++ [10]
     -- --accept-nth: the printed text is the selected fields of the record (AWK-style fields)
     let anth := o "anth" "_"
+    let dlm : Fzf.Tokenizer.Delim := match o "dl" "_" with
+      | "_" => .awk
+      | d => .str (dotBytes d)
+    let fieldsOf (raw : Str) (expr : String) : Option Str :=
+      (Fzf.Tokenizer.splitNth (expr.toList.map Char.toNat)).map fun rs =>
+        Fzf.Tokenizer.joinTokens (Fzf.Tokenizer.transform (Fzf.Tokenizer.tokenize raw dlm) rs)
+    let isExpr (e : String) : Bool := !e.isEmpty && e.all fun c => c.isDigit || c == ',' || c == '-' || c == '.'
+    -- a template: {EXPR} = the fields without their last delimiter, {n} = the item's index, anything else literal
+    let rec evalT (cs : List Char) (raw : Str) (i : Nat) (fuel : Nat) : Str :=
+      match fuel, cs with
+      | 0, _ => []
+      | _, [] => []
+      | fuel + 1, '{' :: rest =>
+        let inner := rest.takeWhile (· != '}')
+        let after := (rest.dropWhile (· != '}')).drop 1
+        let e := String.mk inner
+        if rest.length == inner.length then [123] ++ evalT rest raw i fuel          -- no closing brace
+        else if e == "n" then (toString i).toList.map Char.toNat ++ evalT after raw i fuel
+        else if isExpr e then
+          (match fieldsOf raw e with
+            | some f => Fzf.Tokenizer.stripLastDelimiter Tok.isSpace f dlm
+            | none => []) ++ evalT after raw i fuel
+        else [123] ++ evalT rest raw i fuel
+      | fuel + 1, c :: rest => (String.singleton c).toUTF8.toList.map (·.toNat) ++ evalT rest raw i fuel
     let outText (i : Nat) : Str :=
       let raw := texts.getD i []
-      if anth == "_" then raw else
-        match Fzf.Tokenizer.splitNth (anth.toList.map Char.toNat) with
-        | some rs => Fzf.Tokenizer.stripLastDelimiter Tok.isSpace
-            (Fzf.Tokenizer.joinTokens (Fzf.Tokenizer.transform (Fzf.Tokenizer.tokenize raw .awk) rs)) .awk
+      if anth == "_" then raw
+      else if isExpr anth then
+        match fieldsOf raw anth with
+        | some f => Fzf.Tokenizer.stripLastDelimiter Tok.isSpace f dlm
         | none => raw
+      else Fzf.Tokenizer.stripLastDelimiter Tok.isSpace (evalT anth.toList raw i (anth.length + 1)) dlm
     -- --expect: the key that ended the session, or an empty line
     let expectLine : Option Str :=
       if o "expect" "_" == "_" then none else
